@@ -704,6 +704,7 @@ pub fn run(run: &mut Run) -> Result<(), String> {
             let mut plan = Plan::empty();
             let corpus = corpus_positions(q, &run.sink);
             if q {
+                plan.raws.push((Box::new(LongFen), b(0, 0)));
                 plan.raws.push((Box::new(ThreeMen { bk: None }), b(0, 0)));
                 plan.raws.push((Box::new(Castle { extra: 1, ek_rank2: false }), b(0, 0)));
                 plan.raws.push((Box::new(EpUniverse::reduced()), b(0, 0)));
@@ -724,6 +725,7 @@ pub fn run(run: &mut Run) -> Result<(), String> {
                 plan.raws.push((Box::new(Material), b(0, 0)));
                 let rc: Vec<Pos> = corpus.iter().step_by(9).cloned().collect();
                 plan.raws.push((Box::new(RightsProduct { corpus: rc }), b(0, 0)));
+                plan.raws.push((Box::new(LongFen), b(0, 0)));
                 plan.raws.push((Box::new(ThreeMen { bk: None }), b(0, 0)));
                 plan.raws.push((Box::new(FourMen { kings: None, with_flags: false }), b(0, 0)));
                 plan.raws.push((Box::new(Castle { extra: 2, ek_rank2: false }), b(0, 0)));
@@ -749,6 +751,9 @@ pub fn run(run: &mut Run) -> Result<(), String> {
                 plan.lines = Some(b(2, 1));
                 plan.walk = Some((240, 40, 2, 7, b(1, 1)));
                 plan.raws.push((Box::new(Material), b(0, 0)));
+                if prop == "C07" {
+                    plan.raws.push((Box::new(LongFen), b(1, 0)));
+                }
                 if prop == "C10" || prop == "C07" {
                     plan.raws.push((Box::new(CastlePlay { visitors: vec![Kind::R] }), b(3, 0)));
                     plan.raws.push((Box::new(PromoUniverse { sliders: vec![Kind::R] }), b(1, 0)));
@@ -772,6 +777,9 @@ pub fn run(run: &mut Run) -> Result<(), String> {
                     plan.raws.push((Box::new(Caged { inner: Box::new(AddCastle { inner: Box::new(DoubleCheck { kings: vec![5, 59], own_kinds: vec![] }) }), variants: 3, mover: true }), b(0, 0)));
                 }
             } else {
+                if prop == "C07" {
+                    plan.raws.push((Box::new(LongFen), b(2, 1)));
+                }
                 if prop == "C10" || prop == "C07" {
                     plan.raws.push((Box::new(CastlePlay { visitors: vec![Kind::R, Kind::Q, Kind::N] }), b(3, 1)));
                 }
